@@ -21,7 +21,7 @@ RULE = ("clique covers from (a) random clique hypergraphs, (b) real covers produ
         "below the maximum; distinct = SHA-1 of the concrete cover")
 ASSUMPTIONS = ["vertex ids contiguous from 0 or 1 and every vertex occurs in the cover (as the property stipulates)",
                "probabilities compared at 1e-12"]
-HEADLINE = ["covers", "src_random", "src_eecc", "src_mpcc", "src_adversarial", "src_hub", "src_regular", "one_based", "absent_sizes_ge2", "size_ge9", "vertices_recounted", "pipeline_runs", "pipeline_motifs"]
+HEADLINE = ["covers", "src_random", "src_eecc", "src_mpcc", "src_adversarial", "src_hub", "src_regular", "one_based", "absent_sizes_ge2", "size_ge9", "vertices_recounted", "pipeline_runs", "pipeline_motifs", "covers_written_into_the_same_list_object"]
 REQUIRED = {t: {"src_random": 10, "src_eecc": 5, "src_mpcc": 5, "src_adversarial": 10, "one_based": 10,
                 "absent_sizes_ge2": 10, "pipeline_runs": 10, "size_ge9": 10, "hub_count_ge_256": 10} for t in ("quick", "thorough")}
 
@@ -212,6 +212,23 @@ def run_case(case):
     import copy
     snapshot = copy.deepcopy(cover)
     nt = check_cover(res, cover, rng, path)
+    if res.verdict == "held" and rng.random() < 0.4:
+        # history: the caller's list OBJECT is used again as a buffer for another cover with the same number of cliques (a sweep
+        # over seeds / parameters), and a new loader is built from it
+        _, other = build_cover(rng, res)
+        other = [list(c) for c in other][: len(cover)]
+        base_v = max([v for c in other for v in c if isinstance(v, int)], default=0) + 1
+        while len(other) < len(cover):
+            k = rng.choice([2, 2, 3, 4])
+            other.append(list(range(base_v, base_v + k)))
+            base_v += k
+        # the property speaks about covers over vertices numbered contiguously from 0 or 1: renumber after cutting / padding
+        start = rng.choice([0, 1])
+        ren = {v: i + start for i, v in enumerate(sorted({v for c in other for v in c}))}
+        other = [[ren[v] for v in c] for c in other]
+        cover[:] = other
+        res.count("covers_written_into_the_same_list_object")
+        check_cover(res, cover, rng, path)
     res.nontrivial = bool(nt)
     res.digest = digest(snapshot)
     res.sample = {"source": src, "path": path, "cover": snapshot if len(snapshot) < 60 else snapshot[:60] + ["... %d cliques" % len(snapshot)]}
